@@ -33,6 +33,36 @@ ATOMSETS = [
 ]
 
 
+class ZSet(list):
+    """an atom set whose lines are UTC stamps read with dgrep -z ZONE: predicates see the zone-local date-time (CPython zoneinfo)"""
+    zone = None
+    lines = None
+
+
+def zoned_sets():
+    import zoneinfo
+    out = []
+    for zone, trans in (("Europe/Berlin", [datetime.datetime(2012, 3, 25, 1, 0, 0), datetime.datetime(2012, 10, 28, 1, 0, 0)]),
+                        ("America/New_York", [datetime.datetime(2012, 11, 4, 6, 0, 0), datetime.datetime(2012, 3, 11, 7, 0, 0)]),
+                        ("Asia/Beirut", [datetime.datetime(2012, 10, 27, 21, 0, 0)])):
+        try:
+            tz = zoneinfo.ZoneInfo(zone)
+        except Exception:
+            continue
+        zs = ZSet([(">=03:00:00", lambda d: (d.hour, d.minute, d.second) >= (3, 0, 0)), ("%d<=25", lambda d: d.day <= 25), ("%a=='Sun'", lambda d: d.isoweekday() == 7)])
+        zs.zone = zone
+        stamps = []
+        for t in trans:
+            # ascending through the transition second: the line before it primes whatever the zone lookup remembers
+            for k in (-7200, -3601, -1, 0, 1, 3599, 3600, 7200):
+                stamps.append(t + datetime.timedelta(seconds=k))
+        stamps += [datetime.datetime(2012, 1, 1, 12, 0, 0), datetime.datetime(2012, 7, 1, 2, 30, 0)]
+        zs.lines = [("id%02d %s tail" % (i, u.strftime("%Y-%m-%dT%H:%M:%S")), u.replace(tzinfo=datetime.timezone.utc).astimezone(tz)) for i, u in enumerate(stamps)]
+        zs.lines.insert(3, ("no date here", None))
+        out.append(zs)
+    return out
+
+
 def lines_for(aset):
     """dates realising as many valuations of the atom set as exist, plus lines without a date"""
     want = {}
@@ -113,18 +143,28 @@ def main(tier):
                 for inv in (False, True) if (ti % 3 == 0 or not quick) else (False,):
                     jobs.append((t, aset, f, inv))
 
+        # a part of the trees also on zone-local values (dgrep -z): UTC stamps through the transition seconds of a zone, in ascending order
+        zsets = zoned_sets()
+        for ti, t in enumerate(trees[: 150 if quick else 3000]):
+            if not zsets:
+                break
+            zs = zsets[ti % len(zsets)]
+            jobs.append((t, zs, show(t, [a for a, _ in zs], ti % 2 == 0), ti % 5 == 0))
         lines_cache = {id(a): lines_for(a) for a in ATOMSETS}
+        for zs in zsets:
+            lines_cache[id(zs)] = zs.lines
 
         def one(job):
             t, aset, expr, inv = job
             ls = lines_cache[id(aset)]
-            p = core.run([dgrep] + (["-v"] if inv else []) + [expr], inp="".join(x + "\n" for x, _ in ls), timeout=20, env=bs.env)
+            zargs = ["-z", aset.zone] if getattr(aset, "zone", None) else []
+            p = core.run([dgrep] + zargs + (["-v"] if inv else []) + [expr], inp="".join(x + "\n" for x, _ in ls), timeout=20, env=bs.env)
             return job, p.returncode, p.stdout.split("\n")[:-1] if p.stdout else [], p.stderr[-400:]
         execs = []
         with ThreadPoolExecutor(max_workers=core.NCPU) as ex:
             for (t, aset, expr, inv), rc, out, err in ex.map(one, jobs):
                 ls = lines_cache[id(aset)]
-                e = [{"e": "Reset", "cmd": "dgrep %s'%s'" % ("-v " if inv else "", expr), "tree": t, "inv": inv}]
+                e = [{"e": "Reset", "cmd": "dgrep %s%s'%s'" % ("-z %s " % aset.zone if getattr(aset, "zone", None) else "", "-v " if inv else "", expr), "tree": t, "inv": inv}]
                 pos = 0
                 inorder = True
                 used = 0
